@@ -31,7 +31,9 @@ variable {P H O R : Type}
 /-- **Facts obligation** (regenerated from /repo on every run): `Path.from_text` is the
     check / overflow-bypass / store / return sequence modelled by `fromText`, keyed per PATH_STAR;
     `get_handler` memoises under `(type(obj), op)` — the exact type; `register` and `register_op`
-    reset the memo wholesale; `Vars.glomit` builds a `ScopeVars` from the spec's mapping and
+    reset the memo wholesale as their last unconditional step (a new dict or `.clear()`: either is a
+    reset *provided the memo is the only place a looked-up handler is kept*: `c06_facts_memo_only`);
+    `Vars.glomit` builds a `ScopeVars` from the spec's mapping and
     `ScopeVars.__init__` copies it (`dict(base)`, then `update(defaults)`) as `scopeVarsInit` does. -/
 theorem c06_facts_wf :
     Glom.Generated.fromTextShape =
@@ -43,10 +45,23 @@ theorem c06_facts_wf :
     Glom.Generated.getHandlerShape =
       ["cache_key = (obj_type, op)", "if cache_key not in self._type_cache",
        "return self._type_cache[cache_key]", "self._type_cache[cache_key] = ret"] ∧
-    Glom.Generated.memoResetBy = [("register", true), ("register_op", true)] ∧
+    Glom.Generated.memoResetBy.map (·.1) = ["register", "register_op"] ∧
+    Glom.Generated.memoResetBy.all (fun r => r.2 == "self._type_cache = {}" || r.2 == "self._type_cache.clear()") = true ∧
     Glom.Generated.memoKeyType = "obj_type = type(obj)" ∧
     Glom.Generated.scopeVarsInitShape = ["self.__dict__ = dict(base)", "self.__dict__.update(defaults)"] ∧
     Glom.Generated.varsGlomitShape = ["return ScopeVars(self.base, self.defaults)"] := by
+  decide
+
+/-- **Facts obligation: the memo that `register` resets is the only place a looked-up handler is
+    kept.**  No function of glom (core, grouping, mutation, streaming, reduction, matching) stores a
+    handler obtained from `get_handler` in an attribute, a global, or a container that the call did
+    not create (flow analysis of every function: `extract/facts/c06.py`), and nothing but
+    `TargetRegistry.__init__` / `get_handler` / `register` / `register_op` touches `_type_cache` —
+    so the world of the model (`World.hc`, reset by `HOp.register`) is all the handler state there
+    is.  A second memo keyed on anything `register` does not reset (for instance on the identity of
+    the `_type_cache` dict, which `.clear()` keeps) shows up here. -/
+theorem c06_facts_memo_only :
+    Glom.Generated.handlerStoredOutsideMemo = [] ∧ Glom.Generated.memoTouchedOutsideRegistry = [] := by
   decide
 
 /-- **The path cache never changes an answer**: under the invariant, `Path.from_text` returns the
@@ -179,6 +194,78 @@ theorem c06_register_base_history (parse : Bool → String → P) (maxCache : Na
   rw [c06_lookup_register_lookup parse TReg.compute maxCache rg (fun r => r.register X kw) sub op w hinv,
     c06_register_base_wins (w.reg rg) X sub op kw h hk hx hbefore]
 
+/-- **A wildcard call uses the handlers of the uncached lookup.**  The lookups `_extend_children`
+    makes for the items a `*` / `**` traversal visits (`keys`, then `get`, else `iterate`, per item,
+    each depending on the answers before), run without any memo, reach the children of every item
+    the way `childUse` says under the registrations in force. -/
+theorem c06_star_pure (parse : Bool → String → P) (compute : R → String × String → Option H) (star : Bool)
+    (reg : Nat → R) (rg : Nat) (tys : List String) (fuel : Nat) (hf : starFuel tys ≤ fuel) :
+    runPure parse compute (starStrategy rg tys) star reg fuel [] = some (refStar (compute (reg rg)) tys) :=
+  runPure_star parse compute star reg rg tys fuel hf
+
+/-- **… after any history.**  Whatever came before — the same traversal over the same types (whose
+    handlers are then memoised), other calls, PATH_STAR toggles, registrations of `keys` / `get` /
+    `iterate` handlers for the traversed types or their bases on this or another registry — a
+    wildcard call reaches the children of every item by the handlers the registrations in force *at
+    that moment* give. -/
+theorem c06_star_any_history (parse : Bool → String → P) (compute : R → String × String → Option H)
+    (maxCache : Nat) (before : List (HOp P H (List (StarUse H)) R)) (rg : Nat) (tys : List String) (fuel : Nat)
+    (hf : starFuel tys ≤ fuel) (w : World P H R) (hinv : WorldInv parse compute w) :
+    (runHistory parse compute maxCache w (before ++ [.call (starStrategy rg tys) fuel])).1 =
+      refHistory parse compute w.pathStar w.reg before ++
+        [some (refStar (compute (regsAfter w.reg before rg)) tys)] := by
+  rw [(c06_history parse compute maxCache _ w hinv).1, refHistory_append_call,
+    c06_star_pure parse compute _ _ rg tys fuel hf]
+
+/-- the history of the seeded class, spelled out: a wildcard traversal, a registration on the same
+    registry, the same traversal — the second one uses the handlers of the *new* registrations for
+    every visited type, although the first one memoised the old ones. -/
+theorem c06_star_register_star (parse : Bool → String → P) (compute : R → String × String → Option H)
+    (maxCache : Nat) (rg : Nat) (f : R → R) (tys : List String) (fuel : Nat) (hf : starFuel tys ≤ fuel)
+    (w : World P H R) (hinv : WorldInv parse compute w) :
+    (runHistory parse compute maxCache w
+        [.call (starStrategy rg tys) fuel, .register rg f, .call (starStrategy rg tys) fuel]).1 =
+      [some (refStar (compute (w.reg rg)) tys), some (refStar (compute (f (w.reg rg))) tys)] := by
+  rw [(c06_history parse compute maxCache _ w hinv).1]
+  simp only [refHistory, c06_star_pure parse compute _ _ rg tys fuel hf, setAt_same]
+
+/-- **Registering `keys` for a base changes how `*` expands its subclasses** (concrete registry):
+    when `X` is in the MRO of `sub` with no nearer type registered for `keys`, then after
+    `register(X, keys=h)` the children of an instance of `sub` are reached through `h` and the
+    `get` handler then in force. -/
+theorem c06_star_register_keys (r : TReg) (X sub : String) (kw : List (String × Tag)) (h g : Tag)
+    (hk : assocGet kw "keys" = some h) (hx : X ∈ r.mroOf sub)
+    (hbefore : ∀ c, c ∈ (r.mroOf sub).takeWhile (· != X) → assocGet r.entries (c, "keys") = none)
+    (hg : (r.register X kw).compute (sub, "get") = some g) :
+    childUse (r.register X kw).compute sub = .keysGet h g := by
+  unfold childUse
+  rw [c06_register_base_wins r X sub "keys" kw h hk hx hbefore, hg]
+
+/-- **… and `iterate` for a type whose items are reached by iteration** (no `keys` handler: an
+    object without `__dict__`): after `register(X, iterate=h)` for a base `X` the children of an
+    instance of `sub` are `h(instance)`. -/
+theorem c06_star_register_iterate (r : TReg) (X sub : String) (kw : List (String × Tag)) (h : Tag)
+    (hk : assocGet kw "iterate" = some h) (hx : X ∈ r.mroOf sub)
+    (hbefore : ∀ c, c ∈ (r.mroOf sub).takeWhile (· != X) → assocGet r.entries (c, "iterate") = none)
+    (hkeys : (r.register X kw).compute (sub, "keys") = none) :
+    childUse (r.register X kw).compute sub = .iter h := by
+  unfold childUse
+  rw [hkeys, c06_register_base_wins r X sub "iterate" kw h hk hx hbefore]
+
+/-- both, in a history: `sub.*`, then `register(X, iterate=h)` for a base, then `sub.*` again -/
+theorem c06_star_register_base_history (parse : Bool → String → P) (maxCache : Nat) (rg : Nat)
+    (X sub : String) (kw : List (String × Tag)) (h : Tag) (w : World P Tag TReg)
+    (hinv : WorldInv parse TReg.compute w)
+    (hk : assocGet kw "iterate" = some h) (hx : X ∈ (w.reg rg).mroOf sub)
+    (hbefore : ∀ c, c ∈ ((w.reg rg).mroOf sub).takeWhile (· != X) → assocGet (w.reg rg).entries (c, "iterate") = none)
+    (hkeys : ((w.reg rg).register X kw).compute (sub, "keys") = none) :
+    (runHistory parse TReg.compute maxCache w
+        [.call (starStrategy rg [sub]) 4, .register rg (fun r => r.register X kw), .call (starStrategy rg [sub]) 4]).1 =
+      [some [childUse (w.reg rg).compute sub], some [.iter h]] := by
+  rw [c06_star_register_star parse TReg.compute maxCache rg (fun r => r.register X kw) [sub] 4 (by simp [starFuel]) w hinv]
+  simp only [refStar, List.map_cons, List.map_nil,
+    c06_star_register_iterate (w.reg rg) X sub kw h hk hx hbefore hkeys]
+
 /-- **`Vars`: an evaluation writes only its own ScopeVars object.**  On a heap of dict objects,
     evaluating a spec that holds `Vars(<dict at base>, **defaults)` with any reads / writes
     (`S.v.name`, `A.v.name`): every dict object that existed before — the one the spec and the
@@ -235,12 +322,46 @@ example : reg0.compute ("Child", "get") = some "default" := by decide
 example : ((reg0.register "Child" [("iterate", "it")]).register "Base" [("get", "shout")]).compute ("Child", "get")
     = some "default" := by decide
 
+private def parseStar0 (star : Bool) (_t : String) : Bool := star
+
 private def lookChild : Strategy Bool Tag (Option Tag) := lookup1 1 "Child" "get"
 
 example : (runHistory parse0 TReg.compute 0 { reg := fun _ => reg0 }
     [.call lookChild 2, .register 1 (fun r => r.register "Base" [("get", "shout")]), .call lookChild 2,
      .register 0 (fun r => r.register "Base" [("get", "other")]), .call lookChild 2]).1 =
     [some (some "default"), some (some "shout"), some (some "shout")] := by decide
+
+/-! wildcard traversal: a slotted iterable (`Bag`: no `__dict__`, so no built-in `keys` handler) and a
+    plain object (`Rec`), traversed, registered for, traversed again; a `keys` registration turns a
+    type that was iterated into one expanded by keys; too little fuel = the call has no outcome (the
+    hypothesis `starFuel tys ≤ fuel` is needed) -/
+
+private def reg1 : TReg :=
+  { mro := [("Bag", ["Bag", "object"]), ("Rec", ["Rec", "object"]), ("SubBag", ["SubBag", "Bag", "object"])],
+    nodefault := [("Bag", "keys"), ("SubBag", "keys")] }
+
+example : refStar reg1.compute ["Bag", "Rec"] = [.iter "default", .keysGet "default" "default"] := by decide
+
+example : (runHistory parseStar0 TReg.compute 0 { reg := fun _ => reg1 }
+    [.call (starStrategy 0 ["SubBag", "Rec"]) 7,
+     .register 0 (fun r => r.register "Bag" [("iterate", "newest_first")]),
+     .call (starStrategy 0 ["SubBag", "Rec"]) 7,
+     .register 0 (fun r => r.register "Rec" [("keys", "public_keys")]),
+     .call (starStrategy 0 ["SubBag", "Rec"]) 7,
+     .register 1 (fun r => r.register "Rec" [("get", "other")]),
+     .call (starStrategy 0 ["SubBag", "Rec"]) 7,
+     .register 0 (fun r => r.register "SubBag" [("keys", "k")]),
+     .call (starStrategy 0 ["SubBag", "Rec"]) 7]).1 =
+    [some [.iter "default", .keysGet "default" "default"],
+     some [.iter "newest_first", .keysGet "default" "default"],
+     some [.iter "newest_first", .keysGet "public_keys" "default"],
+     some [.iter "newest_first", .keysGet "public_keys" "default"],
+     some [.keysGet "k" "default", .keysGet "public_keys" "default"]] := by decide
+
+example : runPure parseStar0 TReg.compute (starStrategy 0 ["Bag", "Rec"]) true (fun _ => reg1) 4 [] = none := by
+  decide
+
+example : (reg1.register "Bag" [("iterate", "h")]).compute ("SubBag", "keys") = none := by decide
 
 /-! `Vars`: two evaluations of a spec holding the dict at address 0; the second does not see the
     first one's write, and the dict at address 0 is what it was -/
